@@ -38,7 +38,7 @@ const BASES: [(&str, &str); 14] = [
     ("usertypes::vec::Vec", "usertypes::vec::Vec"),
 ];
 
-const UNARY: [(&str, &str); 12] = [
+const UNARY: [(&str, &str); 14] = [
     ("Box<{}>", "alloc::boxed::Box<{}>"),
     ("Vec<{}>", "alloc::vec::Vec<{}>"),
     ("Option<{}>", "core::option::Option<{}>"),
@@ -47,6 +47,9 @@ const UNARY: [(&str, &str); 12] = [
     ("({},)", "({},)"),
     ("({}, u8)", "({}, u8)"),
     ("[{}; 3]", "[{}; 3]"),
+    // a two-digit length, a tuple of four
+    ("[{}; 12]", "[{}; 12]"),
+    ("({}, u8, bool, i64)", "({}, u8, bool, i64)"),
     ("Box<[{}]>", "alloc::boxed::Box<[{}]>"),
     ("usertypes::Wrap<{}>", "usertypes::Wrap<{}>"),
     ("usertypes::option::Option<{}>", "usertypes::option::Option<{}>"),
